@@ -26,6 +26,16 @@ def run_case(case, rec, cid):
     set_mode(case["mode"])
     rec.begin(cid)
     p = mk_tp(case["p"])
+    nt = _one(case, rec, cid, p)
+    if case.get("also") is not None:       # the same instant written differently, re-zoned to the same offset in the same process
+        import random
+        from harness.common import respellings
+        for q in respellings(p, random.Random(case["also"])):
+            _one(case, rec, cid, q)
+    return nt
+
+
+def _one(case, rec, cid, p):
     zh, zm = case["zh"], case["zm"]
     via = case["via"]
 
@@ -99,7 +109,10 @@ def expand(job):
             elif x < 0.15:
                 yield {"mode": sp, "p": p, "zh": 0, "zm": 0, "via": "to_utc"}
             elif x < 0.6 or "dec" in p or p["prec"] != "hms" or p["hh"] == 24:
-                yield {"mode": sp, "p": p, "zh": zh, "zm": zm, "via": "to_time_zone"}
+                c_ = {"mode": sp, "p": p, "zh": zh, "zm": zm, "via": "to_time_zone"}
+                if p["prec"] == "hms" and not p.get("dec") and p["hh"] < 24 and abs(p["y"]) < 900000 and rnd.random() < 0.1:
+                    c_["also"] = rnd.randrange(10 ** 6)
+                yield c_
             else:
                 yield dump_case(rnd, sp, p, zh, zm)
     elif k == "allzones":      # every legal offset as a destination, from boundary points
